@@ -104,6 +104,7 @@ static SCHED: Mutex<Option<Sched>> = Mutex::new(None);
 
 thread_local! {
     static TID: Cell<Option<usize>> = const { Cell::new(None) };
+    static SPIN_FORCED: Cell<bool> = const { Cell::new(false) };
 }
 
 fn sched() -> MutexGuard<'static, Option<Sched>> {
@@ -315,13 +316,29 @@ fn hook_sync_point(kind: u32, addr: *const ()) {
     if current().is_none() {
         return;
     }
+    if kind & 0xff == a10::verif::SYNC_LOAD_SHARED && SPIN_FORCED.with(|f| f.get()) {
+        // (The loads of the waiting loop itself, see below.)
+        return;
+    }
+    if kind & 0xff != a10::verif::SYNC_SPIN_WAIT && kind & 0xff != a10::verif::SYNC_LOAD_SHARED {
+        SPIN_FORCED.with(|f| f.set(false));
+    }
     if kind & 0xff == a10::verif::SYNC_SPIN_WAIT {
         // a10 waits in a loop for the kernel to change this word: the thread is disabled until it
         // does (a spinning thread must not be the default choice forever). If nobody can change it
         // the wait is forced to end and the loop runs once more (a10 bounds it by time).
+        // Once such a wait has been forced to end (nothing in the execution can change the word: the
+        // deadlock is on record) the loop is left to a10's own real-time bound, without further
+        // scheduling points -- otherwise it would spin through the point limit and never be judged.
+        if SPIN_FORCED.with(|f| f.get()) {
+            return;
+        }
         let word = addr as usize;
         let v0 = unsafe { (*(word as *const std::sync::atomic::AtomicU32)).load(std::sync::atomic::Ordering::SeqCst) };
-        block_until(Box::new(move || unsafe { (*(word as *const std::sync::atomic::AtomicU32)).load(std::sync::atomic::Ordering::SeqCst) } != v0), false, "waiting for the kernel thread to consume submissions");
+        let changed = block_until(Box::new(move || unsafe { (*(word as *const std::sync::atomic::AtomicU32)).load(std::sync::atomic::Ordering::SeqCst) } != v0), false, "waiting for the kernel thread to consume submissions");
+        if !changed {
+            SPIN_FORCED.with(|f| f.set(true));
+        }
         return;
     }
     let what = match kind & 0xff {
@@ -354,6 +371,7 @@ pub fn install() {
 
 /// Scheduling point at a simulated system call boundary.
 pub fn syscall_point(what: &'static str) {
+    SPIN_FORCED.with(|f| f.set(false));
     point(what);
 }
 
